@@ -146,6 +146,7 @@ func runC20(c *Ctx) {
 	c20L5(c, li)
 	c20L6(c, li)
 	wsContract(c, "C20.L8")
+	commaOkDeref(c, "C20.L9", pkgFuncs(c.P, "pkg/gossip", "server/cluster", "server/upstream", "server/gossip", "server/proxy"), 8)
 	// no reflection / unsafe in module packages (VTA soundness assumption)
 	for _, pk := range p.Pkgs {
 		if strings.Contains(pk.PkgPath, "/tests") || strings.Contains(pk.PkgPath, "/cli") {
